@@ -196,6 +196,11 @@ impl<'a> PostConversionLinter for UserDefinedFunctionLinter<'a> {
             Expression::BuiltInFunctionCall(_, args) | Expression::ArrayElement(_, args, _) => {
                 self.visit_expressions(args)
             }
+            Expression::Property(owner, _, _) => {
+                // the owner can be an array element with expressions in its subscripts
+                let owner_pos = owner.as_ref().clone().at_pos(*pos);
+                self.visit_expression(&owner_pos)
+            }
             _ => Ok(()),
         }
     }
